@@ -12,7 +12,8 @@ PROPS = {
           'cases = (schema, base capacity, view offset/length, prefix, data seed, operation sequence); (a) every view of frames '
           'up to 5 (quick) / 9 (thorough) rows x every single operation with all parameters x 13 column schemas (incl. pointer-free element types of 3, 10 and 12 bytes and a custom-codec type), (b) seeded random '
           'sequences of up to 30 operations over up to 4 live views. After every operation all storages (inside and outside views) '
-          'and all views are compared with a slice-of-rows model. Non-trivial: the initial view has offset>0 or len<cap; distinct by descriptor.',
+          'and all views are compared with a slice-of-rows model. Non-trivial: the initial view has offset>0 or len<cap; distinct by descriptor.'
+          ' Seventh round: frames over column slices shorter than their capacity (spare family).',
           variants={'quick': ['plain'], 'thorough': ['plain', 'checkptr']},
           must_observe=['ops_on_offset_views', 'storage_rows_checked']),
  'C07': P('fault_enumeration',
@@ -20,7 +21,8 @@ PROPS = {
           'empty batches, sizes around 128; damage cases = every single-bit flip and every truncation point of the encoded bytes of small '
           '3-batch streams (exhaustive per stream) every value of the first byte (length prefix) of every gob message of those streams, every single-byte substitution (255 values x every byte; quick: one stream), and random 1-6 byte bursts on 4-batch streams; thorough adds a coverage-guided fuzz target (Go native fuzzing, 3 000 000 executions from the seed corpus, 9 schemas) whose inputs are judged by the same oracle when they are a prefix of, or within an 8-byte window of, the encoded stream, and structurally (no panic, n within bounds, canaries, earlier frames unchanged, termination) otherwise. Oracle: rows delivered == rows written '
           '(fidelity); for damage inside a batch: an error, every row delivered before it correct and not beyond the damaged batch. '
-          'Non-trivial: fidelity with >=2 batches or a destination size differing from the batch size; every damage case.',
+          'Non-trivial: fidelity with >=2 batches or a destination size differing from the batch size; every damage case.'
+          ' Seventh round: a lenient custom-codec column type and an all-codec schema in the damage families.',
           variants={'quick': ['plain'], 'thorough': ['plain', 'checkptr']}, ulimit_v_kb=6000000,
           fuzz={'thorough': dict(target='FuzzC07Decode', execs=3000000, parallel=12, timeout=3000)},
           must_observe=['bit_flips', 'truncations', 'length_byte_values', 'damage_detected_as_error', 'rows_roundtripped']),
@@ -57,7 +59,8 @@ PROPS = {
           'interface-typed, variadic, accumulator-first, writer/reader shaped, 15 result lists, non-func values), plus structural constructors '
           '(Const, Prefixed, Head, Scan, Reshuffle, Reshard, Cogroup over all pairs). Exhaustive in that universe. Oracle: independent schema '
           'table (c18expected) + any panic must be a *typecheck.Error located at the calling line. Each Case is one (constructor, slice type) '
-          'group; distinct triples are counted in |triples|.',
+          'group; distinct triples are counted in |triples|.'
+          ' Seventh round: slices with a slice-typed last column and variadic functions whose parameter list equals the columns.',
           nbatch=(4, 4), must_observe=['accepted', 'rejected', 'calls']),
  'C01': P('exploration',
           'cases = (session configuration, program spec): (a) fixed regression list (ScanReader with 0/1/n lines vs shards, fan-out > vector, '
@@ -80,7 +83,8 @@ PROPS = {
           'operator records (shard,row). Oracle: equal keys (Go ==) -> one shard within a run; (operator class, type, key, nshard) -> shard is the same '
           'in every run of the process (different producers, offsets, executors) and, by digest, in every separately started child process '
           '(GOMAXPROCS varied per child); Repartition rows sit in the shard the function returned; aggregations emit each key once. '
-          'Non-trivial: >=2 producers and >=2 output shards received rows.',
+          'Non-trivial: >=2 producers and >=2 output shards received rows.'
+          ' Seventh round: two views of one slice (first column / Prefixed to two columns) redistributed in one invocation, both join orders and each view alone; placement must agree.',
           nbatch=(8, 16), vary_gomaxprocs=True, must_observe=['keys_checked', 'runs_on_bigmachine', 'cross_process_values_compared']),
  'C04': P('exploration',
           'cases = (program spec, list of execution configurations). Every program of the generator (user functions take a context and increment '
@@ -104,7 +108,8 @@ PROPS = {
           'of the chain), Result.Scope() of every result is read before and after each step and must equal the increments of the runs whose tasks '
           'are in its graph, each counted once. Non-trivial: laws with >=1 merge/reset/gob combining two scopes; e2e run on both executors; chain '
           'with non-zero counters in base and a derived run. Chain steps may discard the result they consume first (recomputation without failure). (d) dropped replies: the reply of the k-th Worker.Run is lost '
-          '(no machine fails), the retried call is answered from the completed task: counters must equal those of a failure-free run.',
+          '(no machine fails), the retried call is answered from the completed task: counters must equal those of a failure-free run.'
+          ' Seventh round: user metrics of partly cached results (CachePartial around a shuffle, every subset of shard files).',
           variants={'quick': ['plain'], 'thorough': ['plain', 'race']}, nbatch=(8, 16),
           must_observe=['law_op_merge', 'law_op_gob', 'law_op_reset', 'runs_with_nonzero_counters', 'increments_checked', 'chain_scope_reads', 'chain_discards_before_a_step', 'replies_dropped_after_the_task_had_run', 'law_histories_read_end', 'law_histories_read_copy']),
  'C08': P('exploration',
@@ -117,7 +122,8 @@ PROPS = {
           'compared across processes. A shared-producer family (784 programs) has a Materialize-pragma slice of 1-3 shards or a Result argument '
           'consumed twice in one invocation - directly (none/filter/map) or by reshard 1/2/3/reshuffle, and by reshard 1/2/3, reshuffle, repartition, '
           'cogroup, fold - joined by a Cogroup in both orders, with machine combiners on and off. Non-trivial: the graph has a shuffle edge or a '
-          'reused Result.',
+          'reused Result.'
+          ' Seventh round: the worker-side compilation binds earlier results as a worker holds them.',
           nbatch=(4, 16), must_observe=['graphs_compiled', 'tasks_checked', 'cross_process_values_compared']),
  'C12': P('exploration',
           'cases = (executor, base program, history of operations over the growing set of results): scan (1-4 concurrent scanners, optionally '
@@ -156,7 +162,8 @@ PROPS = {
           'base/file implementation ("vfault") wrapped around the local one. Oracle: rows with cache == reference rows; after any run every shard file '
           'that exists (which a later NewFileShardCache accepts) decodes to the complete reference shard; in the second run the source function (which '
           'knows its shard) is invoked for a shard iff that shard is not served from cache (Cache: iff not all files present); ReadCache yields the '
-          'cached relation. Non-trivial: a file was written or read / the fault fired.',
+          'cached relation. Non-trivial: a file was written or read / the fault fired.'
+          " Seventh round: the result's scope of the second run reports exactly the increments performed in that run.",
           nbatch=(16, 16), must_observe=['cache_files_inspected', 'file_faults_fired', 'cached_shards_skipped', 'uncached_shards_recomputed', 'readcache_runs']),
  'C19': P('exploration',
           'cases = (executor, base program with shard-aware sources, 2..6 generated programs consuming the base Result as both arguments, 0..2 '
@@ -167,7 +174,8 @@ PROPS = {
           'succeeds with its solo reference rows; scans yield reference rows (or an error once the result was discarded); executions of the same '
           'shared task (a source shard of the base program) never overlap in time; every operation returns (stall rule, else inconclusive). A fixed family has one '
           'of four concurrent runs fail by script while all wait for the recomputation of the discarded shared result: it returns its error, the others succeed. '
-          'Non-trivial: >=2 runs were started together over a shared result; distinct by scenario x repetition.',
+          'Non-trivial: >=2 runs were started together over a shared result; distinct by scenario x repetition.'
+          ' Seventh round: wide shared recomputation (64 shards, 8 concurrent runs, local p=4 and p=16).',
           variants={'quick': ['race'], 'thorough': ['race']}, nbatch=(16, 16), timeout=(1200, 3400), vary_gomaxprocs=True,
           must_observe=['concurrent_runs_ok', 'scenarios_with_all_runs_overlapping', 'shared_source_attempts']),
  'C03': P('exploration',
@@ -179,7 +187,8 @@ PROPS = {
           'and hand-offs get logical timestamps. Oracle: every dependency OK at hand-off (window form when completed tasks are lost spontaneously); '
           'no task handed out twice at once; no unneeded task run; nil only if every root is OK; an error only after a fatal outcome, five consecutive '
           'losses or an initially failed task; and no stall (evaluation not returned, nothing in the executor, event counter unchanged across two '
-          'goroutine profiles showing Eval parked). Non-trivial: >=1 hand-off and a non-OK outcome or non-INIT initial state.',
+          'goroutine profiles showing Eval parked). Non-trivial: >=1 hand-off and a non-OK outcome or non-INIT initial state.'
+          ' Seventh round: shapes with phase groups whose members each read a producer of their own.',
           variants={'quick': ['plain'], 'thorough': ['plain', 'race']}, nbatch=(8, 16),
           must_observe=['handoffs', 'resubmissions', 'two_evaluator_histories']),
  'C14': P('exploration',
@@ -193,7 +202,8 @@ PROPS = {
           'all taskProcs=0) and machines started <= ceil(min(peak need, parallelism)/capacity) + machines lost. (c) end to end: programs with '
           'Procs/Exclusive pragmas through real sessions with every exit path provoked (success, user panic, persistent temporary error, machine '
           'kill after a task, kill before a combiner commit under machine combiners), then quiescence; local executor: a gauge in the source '
-          'functions never exceeds Parallelism and reads 1 while an Exclusive task runs. Non-trivial: queue and machine list non-empty / >=1 event.',
+          'functions never exceeds Parallelism and reads 1 while an Exclusive task runs. Non-trivial: queue and machine list non-empty / >=1 event.'
+          " Seventh round: a queued request that fits on a healthy machine (independent placement rule over the manager's newest state) must be granted; requesters receive on all queued requests at once; freed-room histories.",
           nbatch=(13, 16), timeout=(900, 3400),
           must_observe=['placement_nontrivial', 'manager_snapshots_checked', 'offers_granted', 'e2e_runs', 'local_runs', 'capacities_checked_against_max_load_share']),
  'C15': P('fault_enumeration',
